@@ -31,6 +31,7 @@ void FS::reset() {
   stats = FsStats();
   call_seq = 0;
   next_id_ = 1;
+  on_open_read = nullptr;
 }
 
 std::shared_ptr<FS::FileObj> FS::new_file() {
@@ -222,6 +223,7 @@ FILE *sim_fopen(const char *path, const char *mode, std::string const &sp) {
   if (rd) {
     if (it == F.files.end()) { errno = ENOENT; return nullptr; }
     f = it->second;
+    if (F.on_open_read && !zombie) F.on_open_read(walker, sp, f->id);
   } else if (zombie) {
     f = std::make_shared<FS::FileObj>();  // detached scratch object
   } else {
